@@ -115,6 +115,14 @@ func c11Start(proto string, pre []c11Write) (*c11Warm, error) {
 		return nil, err
 	}
 	w.h = h
+	if len(pre) > 0 {
+		// the plugin's writes within a stream must be sequential for the expected byte sequence to
+		// be defined: wait until its pre-attach writer (possibly blocked on a full pipe until now) is done
+		if _, err := h.DoT(Cmd{Op: "prewait", N: 10000}, 15*time.Second); err != nil {
+			w.cl.Kill()
+			return nil, fmt.Errorf("pre-attach data was not drained after the host attached: %w", err)
+		}
+	}
 	return w, nil
 }
 
